@@ -269,6 +269,7 @@ def _name_key(nf):
     ch, root = og.sanitiser_chain(nf)
     r = og.nf_str(root)
     r = r.rsplit(".", 1)[-1] if "." in r else r
+    r = re.sub(r"[^A-Za-z0-9_]", "", r)
     return "/".join(ch + [r[:30]])
 
 
